@@ -24,7 +24,7 @@ struct ZoneSpec {
   int read_throw_times = 0;  // transient: first N sources throw from their second Read
 };
 
-enum OpKind : uint8_t { O_LOAD, O_UTC, O_FIXED, O_LOCAL, O_DEFAULT, O_TAKE, O_EQ, O_QUERY, O_SET_STATE, O_BULK, O_NKINDS };
+enum OpKind : uint8_t { O_LOAD, O_UTC, O_FIXED, O_LOCAL, O_DEFAULT, O_TAKE, O_EQ, O_QUERY, O_SET_STATE, O_BULK, O_SETENV, O_NKINDS };
 
 struct Op {
   OpKind k = O_LOAD;
@@ -34,7 +34,7 @@ struct Op {
   int t2 = 0;        // TAKE: source task
   int64_t a = 0;     // FIXED: offset; BULK: how many distinct fresh names to load (then the first `slot2` of them again)
   Query q;           // QUERY
-  std::string s;     // SET_STATE: new state
+  std::string s;     // SET_STATE: new state; SETENV: "VAR=value" or "VAR" (unset) - only variables that must not matter here (TZDIR, LANG, ...)
   int64_t adv = 0;   // simulated seconds that pass before this op (the one clock is shared by all tasks and never goes back)
   int64_t skew = 0;  // if non-zero: the real-time clock is stepped to this offset from the monotonic one before this op (may go back)
 };
